@@ -181,6 +181,9 @@ def check(ctx):
     tb = prog.cls('text_gen', 'TextBlock')
     bl = prog.cls('text_gen', 'BulletList')
 
+    # ---- C19.every-line (0): the whole of Comment, by interpretation -------------------------------------------------------
+    _comment_by_interpretation(ctx, comment, tb)
+
     # ---- C19.every-line (a): Comment.__init__ --------------------------------------------------------------------------
     init = comment.methods.get('__init__')
     if init is None:
@@ -713,3 +716,69 @@ def _split_rule(ctx, app: FuncInfo):
     if n == 0:
         run.error('C19.every-line', mod, app.qualname, 'line buffer writes', 'append() does not write the line buffer')
 
+
+
+
+def _comment_by_interpretation(ctx, comment: ClassInfo, tb: ClassInfo):
+    """Comment(content) constructed and rendered by interpretation (dznverif.scenario, E7) for every way the generator and
+    a user hand text to a comment: a string (one line, several lines, blank lines, text that looks like code), a list, a
+    nested list, a text block - with and without a header of its own -, a comment inside a comment, text appended after
+    construction.  Every line of str(comment) must start with `//` or be blank, and every piece of text must be in it.  The
+    comment machinery never looks into the text (it splits at line breaks and prefixes), so the pieces stand for any text."""
+    from ..scenario import Interp, Obj, Raised, Undecided
+    run, prog = ctx.run, ctx.prog
+    to_str = prog.lookup_method(comment, '__str__')
+    if to_str is None:
+        return
+    code = 'int x = 0; }'
+    bad: List[str] = []
+    n = 0
+
+    def block(it, lines, header=None):
+        return it.construct(tb, [list(lines)], {} if header is None else {'header': header})
+
+    scenarios = [
+        ('a string', lambda it: 'one line', ['one line']),
+        ('a multi-line string', lambda it: f'first\n{code}\n\nlast', ['first', code, 'last']),
+        ('a list of strings', lambda it: ['a', '', code], ['a', code]),
+        ('a nested list', lambda it: ['a', [code, ['c']]], ['a', code, 'c']),
+        ('a text block', lambda it: block(it, ['a', code]), ['a', code]),
+        ('a text block with a header', lambda it: block(it, ['a'], header=code), ['a']),
+        ('a list holding a text block with a header', lambda it: ['x', block(it, ['a'], header=code)], ['x', 'a', code]),
+        ('a comment', lambda it: it.construct(comment, [[code, 'b']], {}), [code, 'b']),
+        ('nothing', lambda it: None, []),
+    ]
+    try:
+        for label, make, pieces in scenarios:
+            for appended in (None, code):
+                it = Interp(prog)
+                it.MAX_STEPS = 2000000
+                n += 1
+                try:
+                    c = it.construct(comment, [make(it)], {})
+                    if appended is not None:
+                        app = prog.lookup_method(comment, 'append')
+                        if app is None:
+                            continue
+                        it.call_function(app, [appended], {}, self_val=c)
+                    text = it.call_function(to_str, [], {}, self_val=c)
+                except Raised as exc:
+                    bad.append(f'a comment made of {label}: raises {exc.name.split(".")[-1]}')
+                    continue
+                if not isinstance(text, str):
+                    raise Undecided('Comment.__str__ does not yield a string')
+                for ln in text.split('\n'):
+                    if ln.strip() and not ln.startswith('//'):
+                        bad.append(f'a comment made of {label}{" with text appended" if appended else ""}: the line {ln!r} is rendered outside '
+                                   f'the comment')
+                        break
+                for piece in pieces + ([appended] if appended else []):
+                    if piece not in text:
+                        bad.append(f'a comment made of {label}: the text {piece!r} is not rendered')
+                        break
+    except Undecided as exc:
+        run.remark(f'C19: Comment could not be interpreted ({exc}); the shape rules decide alone')
+        return
+    run.add('C19.every-line', comment.module.name, 'Comment.__str__', f'{n} comments constructed and rendered', not bad,
+            'whatever a comment is made of - strings, lists, text blocks with a header, comments - every rendered line starts with `//` '
+            'or is blank' if not bad else '; '.join(bad[:3]))
